@@ -324,6 +324,7 @@ def minimise(check, scenario, decisions, key, seed, budget_s):
   """shrink the scenario (check-specific candidates), then the schedule decision list.
   A candidate is kept only if a violation with the *same* rule and signature persists."""
   t_end = time.time() + budget_s
+  t_scenario = time.time() + 0.6 * budget_s     # the rest is kept for the schedule
   tries = 0
   best_s, best_d = scenario, decisions
   sched_dep = getattr(check, 'SCHEDULE_DEPENDENT', True)
@@ -349,10 +350,10 @@ def minimise(check, scenario, decisions, key, seed, budget_s):
   shrink = getattr(check, 'shrink_candidates', None)
   if shrink is not None:
     progress = True
-    while progress and time.time() < t_end:
+    while progress and time.time() < t_scenario:
       progress = False
       for cand in shrink(best_s):
-        if time.time() > t_end:
+        if time.time() > t_scenario:
           break
         d = attempt(cand, best_d)
         if d is not None:
